@@ -81,7 +81,23 @@ def fd_probe(obj):
 
 
 def run_case(case, ctx):
+    if not case.get("relpath"):
+        return _run_case(case, ctx, False)
+    # the file is given by a relative path (the working directory is the scratch directory for the whole case, children included)
+    get_file(case["size"])
+    old = os.getcwd()
+    os.chdir(_DIR)
+    try:
+        ctx.label("relative-path")
+        return _run_case(case, ctx, True)
+    finally:
+        os.chdir(old)
+
+
+def _run_case(case, ctx, rel):
     path, lines, offs, idx, size = get_file(case["size"])
+    if rel:
+        path, idx = os.path.basename(path), os.path.basename(idx)
     kind = case["cls"]
     n = len(lines)
     if kind == "buffered":
@@ -234,7 +250,7 @@ def strategies(tier):
     prog = st.one_of(rnd_prog, rnd_prog, rnd_prog, seq_prog, seq_prog, long_prog, open_first)
     case = st.fixed_dictionaries({
         "cls": st.sampled_from(["buffered", "buffered", "mmap", "map-dict", "map-index"]),
-        "size": st.sampled_from(["small", "40k", "200k", "200k"]),
+        "size": st.sampled_from(["small", "40k", "200k", "200k"]), "relpath": st.sampled_from([False, False, True]),
         "parent_first": st.booleans(),
         "children": st.lists(prog, min_size=1, max_size=4),
         "parent_prog": st.one_of(st.none(), prog),
